@@ -314,6 +314,13 @@ fn markers(ttl: u8, j: u8) -> [String; 3] {
     [format!("1{t:02}.2{j:02}."), format!(":1{t:02}:2{j:02}:"), format!("hop{t:02}a{j:02}")]
 }
 
+/// shortest prefixes that still identify the ttl of a marker (text may be cut by a narrow column);
+/// no other number on the screen has this shape (round-trip times stay below 100 ms)
+fn short_markers(ttl: u8) -> [String; 3] {
+    let t = ttl % 100;
+    [format!("1{t:02}.2"), format!(":1{t:02}:2"), format!("hop{t:02}a")]
+}
+
 // ------------------------------------------------------------------------------------------
 // the key table: one command per binding, in the order of `Bindings`, plus ctrl-c
 // ------------------------------------------------------------------------------------------
@@ -748,10 +755,9 @@ impl Live {
         if let Some(n) = self.app.tui_config.privacy_max_ttl {
             v.push(SRC_MARK.to_string());
             v.push(SRC_HOST_MARK.to_string());
-            for &(t, j) in &self.marks {
-                if t <= n {
-                    v.extend(markers(t, j));
-                }
+            let ttls: BTreeSet<u8> = self.marks.iter().map(|&(t, _)| t).filter(|&t| t <= n).collect();
+            for t in ttls {
+                v.extend(short_markers(t));
             }
         }
         v
@@ -1419,6 +1425,7 @@ fn privacy_sweep(run: &mut Run, ctx: &Ctx, rng: &mut Rng, thorough: bool) {
                                                             _ => vec![&m[0], &m[2]],
                                                         };
                                                         for wm in want {
+                                                            run.count("c18:positive-checks");
                                                             if !rows.iter().any(|r| r.contains(wm.as_str())) {
                                                                 run.fail("c18-missing", format!("{desc} :: visible hop ttl {} marker `{wm}` not on screen", hop.ttl()));
                                                             }
